@@ -17,8 +17,11 @@ package server
 //       bound is decided for rx here.
 
 import (
+	"encoding/json"
 	"fmt"
 	"io"
+	"os"
+	"sort"
 	"sync"
 	"sync/atomic"
 	"testing"
@@ -28,6 +31,7 @@ import (
 	"github.com/cbeuw/Cloak/internal/common"
 	mux "github.com/cbeuw/Cloak/internal/multiplex"
 	"github.com/cbeuw/Cloak/internal/server/usermanager"
+	"github.com/cbeuw/Cloak/internal/verifhook"
 	kit "github.com/cbeuw/Cloak/internal/verifkit"
 	log "github.com/sirupsen/logrus"
 )
@@ -298,6 +302,10 @@ func TestVerifC19User(t *testing.T) {
 	log.SetLevel(log.PanicLevel)
 	res := kit.NewResult()
 	defer func() { res.Save(true) }()
+	if rp := kit.Env("VERIF_REPLAY", ""); rp != "" {
+		c19LifeReplayFile(t, rp)
+		return
+	}
 	tw := kit.NewTraceWriter("trace_user.ndjson")
 	defer tw.Close()
 	scs := []c19UScn{
@@ -310,7 +318,7 @@ func TestVerifC19User(t *testing.T) {
 		scs = append(scs, c19UScn{ID: 103, Up: 2000, Down: 20000, Sessions: 3, Size: 100, DurS: 40},
 			c19UScn{ID: 104, Up: 100000, Down: 2000, Sessions: 2, Size: 1400, DurS: 30},
 			c19UScn{ID: 107, Up: 20000, Down: 2000, Sessions: 4, Racing: 4, Size: 100, DurS: 30},
-			c19UScn{ID: 108, Up: 2000, Down: 100000, Sessions: 2, Racing: 2, Size: 16000, DurS: 15})
+			c19UScn{ID: 108, Up: 2000, Down: 100000, Sessions: 2, Racing: 2, Size: 1400, DurS: 15})
 	}
 	for _, sc := range scs {
 		sc.Via = "server.userPanel.GetUser / ActiveUser.GetSession"
@@ -367,5 +375,467 @@ func TestVerifC19User(t *testing.T) {
 		}
 	}
 	res.Stat("scenarios", int64(len(scs)))
+	if in := kit.Env("VERIF_IN", ""); in != "" { // life-cycle schedules of spec/TokenBucketPanel.tla
+		if err := c19LifeReplayAll(t, res, tw, in); err != nil {
+			t.Fatal(err)
+		}
+	}
 	res.Stat("trace_events", tw.Events())
+}
+
+// ------------------------------------------------------------------------------------ life cycle
+
+// Schedules generated by TLC from spec/TokenBucketPanel.tla: the user's sessions come and go through the real
+// userPanel - handshakes (GetUser + GetSession, as dispatchConnection does), CloseSession calls that may be held at
+// the repository's schedule points user.closesession.unlocked / panel.terminate.closed (internal/verifhook), and
+// their release - while every live session carries backlogged traffic both ways on the bubble's virtual clock.
+// Decided: (i) at every quiescent point all live sessions of the user carry ONE valve object
+// (key shared-allowance:two-valves), (ii) the bytes of all sessions together, over any interval, stay within
+// rate*t + burst, plus one burst for every (re-)activation of the user inside the interval: a user record that is
+// made anew starts with full buckets on the tree under test (keys tx-exceeds:across-lifecycle / rx-...).
+
+type c19LEv struct {
+	A     string `json:"a"`
+	Sid   uint32 `json:"sid"`
+	Rec   int    `json:"rec"`
+	P     int    `json:"p"`
+	Fresh bool   `json:"fresh"`
+	At    string `json:"at"`
+}
+
+type c19LObs struct {
+	Valves int      `json:"valves"`
+	Live   []uint32 `json:"live"`
+	Cur    int      `json:"cur"`
+}
+
+type c19LStep struct {
+	Ev  c19LEv  `json:"ev"`
+	Obs c19LObs `json:"obs"`
+}
+
+type c19LBeh struct {
+	Bad   bool       `json:"bad"`
+	Mode  string     `json:"mode"` // strict: the model of the tree under test; hypo: schedule of a named deviation
+	Gates []string   `json:"gates"`
+	Steps []c19LStep `json:"steps"`
+}
+
+const (
+	c19LUp   = 20000
+	c19LDown = 50000
+)
+
+type c19LActor struct {
+	state  atomic.Int32 // 0 running, 1 parked, 2 done
+	at     string
+	resume chan struct{}
+}
+
+type c19LSess struct {
+	sid  uint32
+	sesh *mux.Session
+	peer *mux.Session
+}
+
+type c19LResult struct {
+	Key      string
+	What     string
+	Diverged string
+	Table    []string
+	Evs      []c19UEv
+	Records  int
+	// a hypothesis schedule was cut short because its next handshake would find, on this tree, a record in the panel
+	// on which closeAllSessions has already run: the known lookup gap (D9, C15/C17), not a C19 matter
+	Abandoned bool
+}
+
+var c19LGateOf = map[string]string{"user.closesession.unlocked": "unlocked", "panel.terminate.closed": "closed"}
+
+func c19LifeRun(b *c19LBeh) (out c19LResult) {
+	rec := &c19URec{t0: time.Now()}
+	panel := &userPanel{
+		Manager:          &c19Mgr{up: c19LUp, down: c19LDown},
+		activeUsers:      make(map[[16]byte]*ActiveUser),
+		usageUpdateQueue: make(map[[16]byte]*usagePair),
+		uploadInterval:   defaultUploadInterval,
+	}
+	uid := []byte("c19-life-0123456")
+	gates := map[string]bool{}
+	for _, g := range b.Gates {
+		gates[g] = true
+	}
+	var running atomic.Pointer[c19LActor]
+	verifhook.Set(func(point string, args ...uint64) {
+		g, ok := c19LGateOf[point]
+		if !ok || !gates[g] {
+			return
+		}
+		if g == "unlocked" && len(args) > 1 && args[1] != 0 {
+			return // sessions are left: CloseSession returns without terminating, nothing to interleave with
+		}
+		a := running.Load()
+		if a == nil {
+			return
+		}
+		a.at = g
+		a.state.Store(1)
+		<-a.resume
+	})
+	defer verifhook.Set(nil)
+	vn := kit.NewVNet()
+	vn.Tap = func(ev kit.TapEvent) {
+		if ev.Kind == "w" && ev.From == 1 && len(ev.Data) > 5 {
+			rec.add("pass", "tx", len(ev.Data)-5)
+		}
+	}
+	var stop atomic.Bool
+	var wg sync.WaitGroup
+	var writers atomic.Int64
+	var written atomic.Int64
+	budget := int64(8 * (c19LDown*20 + c19LDown))
+	write := func(st io.Writer, size int) {
+		defer wg.Done()
+		defer writers.Add(-1)
+		buf := kit.NewRng(int64(size)).Bytes(size)
+		for !stop.Load() && written.Add(int64(size)) <= budget {
+			if _, err := st.Write(buf); err != nil {
+				return
+			}
+		}
+	}
+	var records []*ActiveUser
+	swept := map[*ActiveUser]bool{} // a goroutine has passed closeAllSessions on it (seen at panel.terminate.closed)
+	var sessions []*c19LSess
+	var links []*kit.VLink
+	actors := map[int]*c19LActor{}
+	actorRec := map[int]*ActiveUser{}
+	logf := func(f string, a ...any) { out.Table = append(out.Table, fmt.Sprintf(f, a...)) }
+	settle := func(a *c19LActor) bool {
+		for i := 0; i < 4000; i++ {
+			synctest.Wait()
+			if a == nil || a.state.Load() != 0 {
+				return true
+			}
+			time.Sleep(50 * time.Millisecond) // e.g. a Close that waits for tokens before its notice goes out
+		}
+		return false
+	}
+	launch := func(a *c19LActor, f func()) bool {
+		a.state.Store(0)
+		running.Store(a)
+		wg.Add(1)
+		go func() {
+			defer wg.Done()
+			f()
+			a.at = "done"
+			a.state.Store(2)
+		}()
+		ok := settle(a)
+		running.Store(nil)
+		return ok
+	}
+	release := func(a *c19LActor) bool {
+		a.state.Store(0)
+		running.Store(a)
+		a.resume <- struct{}{}
+		ok := settle(a)
+		running.Store(nil)
+		return ok
+	}
+	observe := func() (valves int, live []uint32) {
+		vs := map[mux.Valve]bool{}
+		for _, s := range sessions {
+			if !s.sesh.IsClosed() {
+				vs[s.sesh.Valve] = true
+				live = append(live, s.sid)
+			}
+		}
+		sort.Slice(live, func(i, j int) bool { return live[i] < live[j] })
+		return len(vs), live
+	}
+	for si, st := range b.Steps {
+		ev := st.Ev
+		switch ev.A {
+		case "hs":
+			var arr [16]byte
+			copy(arr[:], uid)
+			panel.activeUsersM.RLock()
+			held := panel.activeUsers[arr]
+			panel.activeUsersM.RUnlock()
+			if held != nil && swept[held] {
+				if b.Mode == "hypo" {
+					logf("step %d handshake: the panel holds a record that is being terminated (known lookup gap D9): schedule abandoned", si)
+					out.Abandoned = true
+				} else {
+					out.Diverged = fmt.Sprintf("step %d: the panel holds a record on which closeAllSessions has run; the model excludes that (NoLookupGap)", si)
+				}
+				break
+			}
+			user, err := panel.GetUser(uid)
+			if err != nil {
+				out.Diverged = fmt.Sprintf("step %d: GetUser: %v", si, err)
+				break
+			}
+			idx := -1
+			for k, r := range records {
+				if r == user {
+					idx = k
+				}
+			}
+			fresh := idx < 0
+			if fresh {
+				records = append(records, user)
+				idx = len(records) - 1
+				rec.add("activate", "", 0)
+			}
+			var key [32]byte
+			copy(key[:], kit.NewRng(int64(ev.Sid)+77).Bytes(32))
+			obfs, _ := mux.MakeObfuscator(mux.EncryptionMethodChaha20Poly1305, key)
+			cfg := mux.SessionConfig{Obfuscator: obfs, MsgOnWireSizeLimit: 16401, InactivityTimeout: 1000000 * time.Second}
+			sesh, existing, err := user.GetSession(ev.Sid, cfg)
+			if err != nil {
+				out.Diverged = fmt.Sprintf("step %d: GetSession: %v", si, err)
+				break
+			}
+			logf("step %d handshake(sid %d): expected record %d fresh=%v, observed record %d fresh=%v existing=%v", si, ev.Sid, ev.Rec, ev.Fresh, idx+1, fresh, existing)
+			if !existing {
+				peer := mux.MakeSession(ev.Sid, cfg)
+				l := vn.NewLink(false, false)
+				l.Bound = 2048
+				links = append(links, l)
+				peer.AddConnection(common.NewTLSConn(l.End(0)))
+				sesh.AddConnection(common.NewTLSConn(l.End(1)))
+				sessions = append(sessions, &c19LSess{sid: ev.Sid, sesh: sesh, peer: peer})
+				wg.Add(1)
+				go func() {
+					defer wg.Done()
+					conn, e := sesh.Accept()
+					if e != nil {
+						return
+					}
+					wg.Add(2)
+					writers.Add(1)
+					go write(conn, 8000)
+					go func() {
+						defer wg.Done()
+						buf := make([]byte, 1<<16)
+						for {
+							n, e := conn.Read(buf)
+							if n > 0 {
+								rec.add("pass", "rx", n)
+							}
+							if e != nil {
+								return
+							}
+						}
+					}()
+				}()
+				if pst, e := peer.OpenStream(); e == nil {
+					wg.Add(2)
+					writers.Add(1)
+					go write(pst, 4000)
+					go func() { defer wg.Done(); io.Copy(io.Discard, pst) }()
+				}
+			}
+			settle(nil)
+			if b.Mode == "strict" && (idx+1 != ev.Rec || fresh != ev.Fresh) && out.Diverged == "" {
+				out.Diverged = fmt.Sprintf("step %d: handshake got record %d (fresh=%v), the model record %d (fresh=%v)", si, idx+1, fresh, ev.Rec, ev.Fresh)
+			}
+		case "close":
+			if ev.Rec > len(records) {
+				logf("step %d close: record %d was never handed out here, skipped", si, ev.Rec)
+				continue
+			}
+			user := records[ev.Rec-1]
+			a := &c19LActor{resume: make(chan struct{})}
+			actors[ev.P] = a
+			actorRec[ev.P] = user
+			if !launch(a, func() { user.CloseSession(ev.Sid, "c19 life cycle") }) {
+				out.Diverged = fmt.Sprintf("step %d: CloseSession neither returned nor reached a schedule point", si)
+			}
+			logf("step %d CloseSession(record %d, sid %d) by goroutine %d: expected at %q, observed at %q", si, ev.Rec, ev.Sid, ev.P, ev.At, a.at)
+			if b.Mode == "strict" && a.at != ev.At && out.Diverged == "" {
+				out.Diverged = fmt.Sprintf("step %d: goroutine %d is at %q, the model at %q", si, ev.P, a.at, ev.At)
+			}
+		case "go":
+			a := actors[ev.P]
+			if a == nil || a.state.Load() != 1 {
+				logf("step %d go(%d): not parked here, skipped", si, ev.P)
+				continue
+			}
+			if !release(a) {
+				out.Diverged = fmt.Sprintf("step %d: goroutine %d neither returned nor reached a schedule point", si, ev.P)
+			}
+			logf("step %d go(%d): expected at %q, observed at %q", si, ev.P, ev.At, a.at)
+			if b.Mode == "strict" && a.at != ev.At && out.Diverged == "" {
+				out.Diverged = fmt.Sprintf("step %d: goroutine %d is at %q, the model at %q", si, ev.P, a.at, ev.At)
+			}
+		}
+		if out.Diverged != "" || out.Abandoned {
+			break
+		}
+		for p, a := range actors {
+			if a.at == "closed" && a.state.Load() == 1 {
+				swept[actorRec[p]] = true
+			}
+		}
+		valves, live := observe()
+		logf("  after step %d: expected %d valve(s) over live sessions %v, observed %d over %v", si, st.Obs.Valves, st.Obs.Live, valves, live)
+		if valves > 1 && out.Key == "" {
+			out.Key = "shared-allowance:two-valves"
+			out.What = fmt.Sprintf("after step %d (%s) the user's live sessions %v are metered by %d different valve objects: the allowance is no longer shared", si, ev.A, live, valves)
+		}
+		if b.Mode == "strict" && out.Key == "" && (valves != st.Obs.Valves || fmt.Sprint(live) != fmt.Sprint(append([]uint32{}, st.Obs.Live...))) {
+			out.Diverged = fmt.Sprintf("after step %d: live sessions %v on %d valve(s), the model has %v on %d", si, live, valves, st.Obs.Live, st.Obs.Valves)
+			break
+		}
+		time.Sleep(time.Second) // traffic between the steps
+	}
+	// let parked goroutines finish in index order, then a stretch of plain backlog
+	for p := 1; p <= 8; p++ {
+		if a := actors[p]; a != nil && a.state.Load() == 1 {
+			release(a)
+			for a.state.Load() == 1 {
+				release(a)
+			}
+		}
+	}
+	time.Sleep(6 * time.Second)
+	stop.Store(true)
+	for writers.Load() > 0 {
+		time.Sleep(10 * time.Millisecond)
+	}
+	time.Sleep(100 * time.Millisecond)
+	for _, s := range sessions {
+		s.peer.Close()
+		s.sesh.Close()
+	}
+	for _, l := range links {
+		l.End(0).Close()
+		l.End(1).Close()
+	}
+	wg.Wait()
+	time.Sleep(20 * time.Minute)
+	synctest.Wait()
+	rec.mu.Lock()
+	out.Evs = append([]c19UEv(nil), rec.evs...)
+	rec.mu.Unlock()
+	out.Records = len(records)
+	return
+}
+
+// c19LCheck: all pairs of events of one direction; an interval may carry rate*t + burst*1.01 + one burst per
+// activation of the user recorded inside it.
+func c19LCheck(dir string, rate int64, evs []c19UEv) (n int, what string) {
+	var t, pre, acts []int64
+	pre = append(pre, 0)
+	var a int64
+	for _, e := range evs {
+		if e.kind == "activate" {
+			a++
+		}
+		if e.dir == dir && e.kind == "pass" {
+			t = append(t, e.ns)
+			pre = append(pre, pre[len(pre)-1]+int64(e.n))
+			acts = append(acts, a)
+		}
+	}
+	n = len(t)
+	for i := 0; i < n; i++ {
+		for j := i; j < n; j++ {
+			allow := rate*(t[j]-t[i]) + (rate*101/100+rate*(acts[j]-acts[i]))*1e9
+			if got := (pre[j+1] - pre[i]) * 1e9; got > allow {
+				return n, fmt.Sprintf("%s: %d bytes passed between t=%.3f ms and t=%.3f ms over all sessions the user had in that time; %d B/s allow %d (rate*t) + %d (burst, +1%%) + %d (one burst per activation of the user in the interval: %d)",
+					dir, got/1e9, float64(t[i])/1e6, float64(t[j])/1e6, rate, rate*(t[j]-t[i])/1e9, rate*101/100, rate*(acts[j]-acts[i]), acts[j]-acts[i])
+			}
+		}
+	}
+	return n, ""
+}
+
+func c19LEvaluate(t *testing.T, b *c19LBeh) (out c19LResult) {
+	synctest.Test(t, func(t *testing.T) { out = c19LifeRun(b) })
+	if _, w := c19LCheck("tx", c19LDown, out.Evs); w != "" && out.Key == "" {
+		out.Key, out.What = "tx-exceeds:across-lifecycle", w
+	}
+	if _, w := c19LCheck("rx", c19LUp, out.Evs); w != "" && out.Key == "" {
+		out.Key, out.What = "rx-exceeds:across-lifecycle", w
+	}
+	return
+}
+
+func c19LifeReplayAll(t *testing.T, res *kit.Result, tw *kit.TraceWriter, path string) error {
+	idx := 0
+	return kit.ReadLines(path, func(line []byte) error {
+		var b c19LBeh
+		if err := json.Unmarshal(line, &b); err != nil {
+			return err
+		}
+		idx++
+		if res.NumViolations() > 12 {
+			return nil
+		}
+		out := c19LEvaluate(t, &b)
+		churn := false
+		for _, st := range b.Steps {
+			churn = churn || st.Ev.A != "hs"
+		}
+		res.Count(string(line), churn)
+		res.Stat("life_behaviours", 1)
+		res.Stat("life_"+b.Mode, 1)
+		if out.Records > 1 {
+			res.Stat("life_reactivated", 1)
+		}
+		if out.Key != "" {
+			res.Violate(out.Key, out.What, map[string]any{"life_behaviour": b, "table": out.Table})
+			if b.Mode == "hypo" {
+				res.Stat("life_hypothesis_followed", 1)
+			}
+		} else if out.Diverged != "" {
+			res.Stat("life_diverged", 1)
+			res.Note("life-cycle behaviour %d diverged: %s", idx, out.Diverged)
+			res.Sample(map[string]any{"diverged": out.Diverged, "table": out.Table}, 12)
+		} else if b.Mode == "hypo" {
+			res.Stat("life_hypothesis_refuted", 1)
+			if out.Abandoned {
+				res.Stat("life_hypothesis_abandoned_d9_window", 1)
+			}
+		}
+		if idx%29 == 1 {
+			res.Sample(map[string]any{"life_behaviour": json.RawMessage(append([]byte{}, line...))}, 12)
+		}
+		// the same TLC trace specification meters the run: reset, then pass / activate events
+		tw.Emit(map[string]any{"ev": "reset", "scn": 1000 + idx,
+			"tx": map[string]any{"rpm": c19LDown / 1000, "burst": c19LDown, "relax": 0, "maxmsg": c19LDown},
+			"rx": map[string]any{"rpm": c19LUp / 1000, "burst": c19LUp, "relax": 0, "maxmsg": c19LUp}})
+		for _, e := range out.Evs {
+			m := map[string]any{"ev": e.kind, "t": e.ns / 1e6}
+			if e.kind == "pass" {
+				m["dir"], m["n"] = e.dir, e.n
+			}
+			tw.Emit(m)
+		}
+		return nil
+	})
+}
+
+func c19LifeReplayFile(t *testing.T, path string) {
+	var rf struct {
+		Replay struct {
+			B *c19LBeh `json:"life_behaviour"`
+		} `json:"replay"`
+	}
+	raw, err := os.ReadFile(path)
+	if err != nil {
+		t.Fatal(err)
+	}
+	if err := json.Unmarshal(raw, &rf); err != nil || rf.Replay.B == nil {
+		t.Fatalf("no life-cycle behaviour in %s (%v)", path, err)
+	}
+	out := c19LEvaluate(t, rf.Replay.B)
+	for _, l := range out.Table {
+		fmt.Println(l)
+	}
+	fmt.Printf("REPLAY-RESULT key=%q what=%q diverged=%q\n", out.Key, out.What, out.Diverged)
 }
